@@ -3,8 +3,16 @@
 # 1. confirms the candidate in a scratch worktree (existing tests pass with the change, demo fails with it and
 #    passes without it); 2. runs the property's quick check against the change applied to /repo and undoes it;
 # 3. stores the candidate under /verif/seeded/<name>/ with what was run.
+# STAGE=confirm: only step 1 (nothing touches /repo's working tree; result kept in <candidate_dir>/_confirm.txt);
+# STAGE=check: steps 2-3, reusing that file.
 set -u
 id="$1"; cand="$2"; name="${3:-$id}"
+stage="${STAGE:-both}"
+if [ "$stage" = check ]; then
+  [ -f "$cand/_confirm.txt" ] || { echo "[$name] no _confirm.txt"; exit 4; }
+  t1=$(sed -n 1p "$cand/_confirm.txt"); d1=$(sed -n 2p "$cand/_confirm.txt"); d2=$(sed -n 3p "$cand/_confirm.txt")
+  cd /verif
+else
 feat=""; [ "$id" = "C20" ] && feat="--features geo-types,geo-traits"
 wt=/tmp/wtv/$name
 rm -rf "$wt"; git -C /repo worktree prune
@@ -27,6 +35,9 @@ cd /verif
 git -C /repo worktree remove --force "$wt"
 echo "[$name] existing suite with change: $suite_ok | demo fails with change: $demo_fails_with | demo passes without: $demo_passes_without"
 if [ "$suite_ok $demo_fails_with $demo_passes_without" != "yes yes yes" ]; then echo "[$name] CANDIDATE NOT CONFIRMED: $t1 // $d1 // $d2"; exit 4; fi
+printf '%s\n%s\n%s\n' "$t1" "$d1" "$d2" > "$cand/_confirm.txt"
+[ "$stage" = confirm ] && exit 0
+fi
 # run the check against the change
 if ! git -C /repo diff --quiet; then echo "/repo is dirty, refusing"; exit 2; fi
 git -C /repo apply "$cand/patch.diff" || { echo "apply to /repo failed"; exit 3; }
